@@ -3,6 +3,7 @@ import ast
 import builtins as _bi
 import z3
 
+from .values import SymDict
 from .values import (Ref, NONE, Obj, Unsupported, FuncVal, BoundMethod, ClassVal, ModuleVal, Builtin, SuperVal, Event,
                      SORTS, spec_from_ctype, sortkey, coerce, is_z3, is_real, is_int, is_bool, is_str, is_ref, is_fp,
                      to_real, to_int, to_ref, to_str, to_bool_term, num_args, real_const, concrete)
@@ -184,7 +185,11 @@ class ExprMixin:
                     return False
         return True
 
-    def resolve_import(self, origin, name, fr):
+    def resolve_import(self, origin, name, fr, _seen=None):
+        _seen = _seen if _seen is not None else set()
+        if origin in _seen or len(_seen) > 40:
+            return None
+        _seen.add(origin)
         """Resolve `from a.b cimport name` to a FuncVal / ClassVal / constant in the source trees."""
         short = origin.split('.')[-1]
         modpath = origin.rsplit('.', 1)[0]
@@ -215,12 +220,12 @@ class ExprMixin:
                         return self.module_const(rel, short, consts[short], None, fr)
                     sub = getattr(mod, 'imports', {})
                     for star in sub.get('*', []):
-                        r = self.resolve_import(star + '.' + short, short, self.make_frame_for_file(rel))
+                        r = self.resolve_import(star + '.' + short, short, self.make_frame_for_file(rel), _seen)
                         if r is not None and not (isinstance(r, ClassVal) and self.tree.class_info(short) is None):
                             return r
                     if short in sub and sub[short] != origin:
                         f2 = self.make_frame_for_file(rel)
-                        r = self.resolve_import(sub[short], short, f2)
+                        r = self.resolve_import(sub[short], short, f2, _seen)
                         if r is not None:
                             return r
         if self.tree.class_info(short) is not None:
@@ -253,9 +258,16 @@ class ExprMixin:
                 d.update(sub)
                 continue
             kk = self.ev(k, st, fr)
-            kc = concrete(kk)
+            kc = concrete(kk) if not isinstance(kk, (Obj, tuple)) else None
             if kc is None and kk is not None:
-                raise Unsupported('dict literal with symbolic key')
+                # symbolic key: association list
+                items = [(key, val) for key, val in d.items()]
+                sd = SymDict(items)
+                rest_k = node.keys[node.keys.index(k):]
+                rest_v = node.values[node.keys.index(k):]
+                for k2, v2 in zip(rest_k, rest_v):
+                    sd.items.append((self.ev(k2, st, fr), self.ev(v2, st, fr)))
+                return sd
             d[kc] = self.ev(v, st, fr)
         return d
 
@@ -397,6 +409,17 @@ class ExprMixin:
             for k in range(n - 2, -1, -1):
                 out = self.ite_value(i == k, base[k], out)
             return out
+        if isinstance(base, SymDict):
+            for k, v in base.items:
+                same = self.identical(k, idx) if isinstance(k, Obj) or isinstance(idx, Obj) else self.equal(k, idx, st, fr)
+                if same is True or (is_z3(same) and concrete(same) is True) or (is_z3(k) and is_z3(idx) and k.eq(idx)) or \
+                        (isinstance(k, Obj) and isinstance(idx, Obj) and k.ref.eq(idx.ref)):
+                    return v
+            if base.auto:
+                nv = SymDict(auto=True)
+                base.items.append((idx, nv))
+                return nv
+            raise Unsupported('lookup of a key not present in a symbolic dict literal')
         if isinstance(base, dict):
             kc = concrete(idx)
             if isinstance(idx, tuple):
@@ -641,6 +664,19 @@ class ExprMixin:
         raise Unsupported('identity test between %r and %r' % (a, b))
 
     def equal(self, a, b, st, fr):
+        if isinstance(a, (SymDict, dict)) and isinstance(b, (SymDict, dict)):
+            ia = a.items if isinstance(a, SymDict) else list(a.items())
+            ib = b.items if isinstance(b, SymDict) else list(b.items())
+            if len(ia) != len(ib):
+                return False
+            parts = []
+            for (ka, va), (kb, vb) in zip(ia, ib):
+                parts.append(self.equal(ka, kb, st, fr) if not (isinstance(ka, Obj) or isinstance(kb, Obj)) else self.identical(ka, kb))
+                parts.append(self.equal(va, vb, st, fr) if isinstance(va, (SymDict, dict, tuple, list, str, int)) or not isinstance(va, Obj)
+                             else self.identical(va, vb))
+            if all(isinstance(p_, bool) for p_ in parts):
+                return all(parts)
+            return z3.And(*[z3.BoolVal(p_) if isinstance(p_, bool) else p_ for p_ in parts])
         if isinstance(a, (tuple, list)) and isinstance(b, (tuple, list)):
             if len(a) != len(b):
                 return False
